@@ -81,14 +81,23 @@ Proof.
   intros Hd Hb. apply parse_thm; [exact Hd | apply version_range | exact Hb].
 Qed.
 
-(* request level: off the recorded trigger the code's answer is the demanded one *)
-Theorem impl_eq_spec_off_trigger data i :
+(* request level: the code's answer is the demanded one, for every request *)
+Theorem answer_impl_is_spec data i :
   Forall (fun b => (b < 256)%N) data ->
-  trigger_unsigned data (f_protocol i) (kind_of (f_key i)) = false ->
   impl_forwarding_data data i = spec_forwarding_data data i.
 Proof.
-  intros Hwf Ht. unfold impl_forwarding_data, spec_forwarding_data, forwarding_data, body.
-  rewrite (choice_off_trigger data _ _ Hwf Ht). reflexivity.
+  intro Hwf. unfold impl_forwarding_data, spec_forwarding_data, forwarding_data, body.
+  rewrite (choice_impl_is_spec data _ _ Hwf). reflexivity.
+Qed.
+
+(* PRE-fix code: equal to the demanded answer off the trigger *)
+Theorem prefix_eq_spec_off_trigger data i :
+  Forall (fun b => (b < 256)%N) data ->
+  trigger_unsigned data (f_protocol i) (kind_of (f_key i)) = false ->
+  prefix_forwarding_data data i = spec_forwarding_data data i.
+Proof.
+  intros Hwf Ht. unfold prefix_forwarding_data, spec_forwarding_data, forwarding_data, body.
+  rewrite (prefix_choice_off_trigger data _ _ Hwf Ht). reflexivity.
 Qed.
 
 (* the demanded answer: authentic, and Paper reads back Velocity's version and the player data *)
@@ -110,6 +119,19 @@ Proof.
     rewrite beq_bytes_refl, andb_true_r. apply Nat.leb_le. rewrite app_length, Hl. lia.
   - rewrite (skipn_app_len _ _ _ Hl). apply parse_thm; [exact Hd | | exact Eb].
     unfold v. rewrite <- version_eq. apply version_range.
+Qed.
+
+(* the code's answer to a request: authentic, Velocity's version, the player's data *)
+Theorem impl_answer_thm data i d :
+  Forall (fun b => (b < 256)%N) data ->
+  dom_input i ->
+  impl_forwarding_data data i = Some d ->
+  paper_check_integrity (f_secret i) d = true /\
+  paper_parse (skipn 32 d)
+  = Ok (expected_parsed (velocity_choice (requested_of_data spec_requested data) (f_protocol i)
+                                         (kind_of (f_key i))) i, []).
+Proof.
+  intros Hwf Hd H. rewrite (answer_impl_is_spec data i Hwf) in H. exact (spec_answer_thm data i d Hd H).
 Qed.
 
 (* non-vacuity: a 1.19.1 player with a LinkedV2 key and a signed textures property, backend asks for 3 *)
